@@ -23,6 +23,11 @@ def decl_specs(tier):
         for al in (2, 4):
             specs.append({'names': ['i1', c], 'wrapper': 'a', 'opts': {'align': al}})
             specs.append({'names': [c, 'i2'], 'wrapper': 'b', 'opts': {'align': al}})
+    # one options dict object shared by all the classes of a module
+    for c in ('r1', 'sr', 'rs', 'or', 'rbag', 'i1', 'rvec'):
+        for w in 'bc':
+            specs.append({'names': [c, 'i2'], 'wrapper': w, 'shared': {}})
+        specs.append({'names': ['i1', c], 'wrapper': 'b', 'shared': {'endianness': 'little'}})
     specs.append({'described': True, 'names': []})
     return specs
 
